@@ -422,7 +422,7 @@ def run_check(prop, tier, seed, replay=None, workers=None):
     )
     if harness_errors:
         ev["coverage"]["harness_errors"] = [h["error"] for h in harness_errors][:5]
-    EVIDENCE.mkdir(exist_ok=True)
+    EVIDENCE.mkdir(parents=True, exist_ok=True)
     (EVIDENCE / f"{prop}.json").write_text(json.dumps(ev, indent=1, default=str))
     emit(
         f"[{prop}] tier={tier} seed={seed} evaluations={evaluations} nontrivial={len(nontriv)} "
